@@ -3,6 +3,7 @@ import MiniMcmcVerif.Driver.C09
 import MiniMcmcVerif.Driver.C05
 import MiniMcmcVerif.Driver.C16
 import MiniMcmcVerif.Driver.C01
+import MiniMcmcVerif.Driver.C18
 
 open MiniMcmcVerif MiniMcmcVerif.Driver
 
@@ -13,6 +14,7 @@ def dispatch (line : String) : String :=
   | "c05" :: args => c05 args
   | "c16" :: args => c16 args
   | "c01" :: args => c01 args
+  | "c18" :: args => c18 args
   | _ => "bad-op"
 
 partial def loop (h : IO.FS.Stream) (out : IO.FS.Stream) : IO Unit := do
